@@ -2,7 +2,43 @@ package types
 
 import (
 	"fmt"
+	"sort"
 )
+
+// canonical 返回字段按名称排序的等价类型: 结构类型相等不区分字段顺序,
+// 单态函数的查找 key 也不能区分, 否则 f({b:1,a:2}) 找不到 f :: {a,b} -> ...
+func canonical(ty *Type) *Type {
+	switch ty.Kind {
+	case KList:
+		return List(canonical(ty.List().El))
+	case KMap:
+		return Map(canonical(ty.Map().Key), canonical(ty.Map().Val))
+	case kTuple:
+		return Tuple(canonicals(ty.Tuple().Val))
+	case KObj:
+		fs := make([]Field, len(ty.Obj().Fields))
+		for i, f := range ty.Obj().Fields {
+			fs[i] = Field{f.Name, canonical(f.Val)}
+		}
+		sort.SliceStable(fs, func(i, j int) bool { return fs[i].Name < fs[j].Name })
+		return Obj(fs)
+	case KFun:
+		f := ty.Fun()
+		return Fun(f.Name, canonicals(f.Param), canonical(f.Return))
+	case KMaybe:
+		return Maybe(canonical(ty.Maybe().Elem))
+	default:
+		return ty
+	}
+}
+
+func canonicals(tys []*Type) []*Type {
+	xs := make([]*Type, len(tys))
+	for i, ty := range tys {
+		xs[i] = canonical(ty)
+	}
+	return xs
+}
 
 type FunKind int
 
@@ -15,7 +51,7 @@ const (
 func (f *FunTy) OverLoaded() (key string, fk FunKind) {
 	if slotFree(f.Ty()) {
 		// 单态函数直接根据去除返回值的签名来查找
-		return fmt.Sprintf("λ %s %s", f.Name, Tuple(f.Param)), MonoFun
+		return fmt.Sprintf("λ %s %s", f.Name, canonical(Tuple(f.Param))), MonoFun
 	} else {
 		// for 支持 universal quantification
 		// 多态函数根据名称+参数个数来查找
